@@ -144,6 +144,12 @@ void ParallelAction::onReset() {
     AssembleAction::onReset();
 }
 
+void ParallelAction::onFinished(bool is_succ, const Reason &why, const Trace &trace) {
+    //! the finish may not come from the children (e.g. timeout)
+    stopAllActions();
+    AssembleAction::onFinished(is_succ, why, trace);
+}
+
 void ParallelAction::stopAllActions() {
     for (Action *action : children_) {
         action->stop();
